@@ -4,8 +4,11 @@
 (T1/T2).  Three contract facts give that: (1) stability -- every tree-mutating function only refines leaves
 (`refines` frame, for all histories); (2) value determinism and cache transparency -- a node's (W, H) is a function of
 stable fields and seeded noise only, the caches may forget but never alter; (3) wrappers forward queries to the same
-object without writing to it.  The remaining relational clause (a resolved query is re-decomposed into exactly the same
-node list from any start node) is NOT decided here (see NOT_DECIDED)."""
+object without writing to it;  (4) value-level history independence over the reals -- the ghost-path chain (the same contracts that
+C03 uses, here with prefix C05): every call returns W = Wc(round(tb)) - Wc(round(ta)) and U = V(tb) - V(ta) - (tb-ta) Wc(ta) for a
+ghost path (Wc, V) that no tree-mutating function changes at a point it has already fixed (`ghost.stable`), so a repeated query
+returns the same real value whatever was asked in between, from any start node.  What (4) does not give is that the *floating-point*
+decomposition (node list, order of additions) is the same: that relational clause is NOT decided here (see NOT_DECIDED)."""
 from props.base import Job, T1, T2, T6
 from props import tree_jobs as TJ
 from props import wrapper_jobs as WJ
@@ -18,7 +21,8 @@ from contracts import lru
 LEVEL = 'proof'
 TRUSTED = ['pyvc interpreter + heap model (T6)', 'z3 5.1.0 / cvc5 1.0.3 / z3 4.8.12']
 ASSUMPTIONS = [T1, T2, T6]
-NOT_DECIDED = ['decomposition determinism (the same query is answered by the same node list after arbitrary refinement, from any start '
+NOT_DECIDED = ['value-level history independence over the reals is proved (ghost-path chain); decomposition determinism at the level of '
+               'floating-point terms (the same query is answered by the same node list after arbitrary refinement, from any start '
                'node) is not proved: it needs the laminar-family induction over pairs of nodes. The local ingredients (refines frame, laminar '
                'invariants LD/NB, contiguity) are proved; the closing step is served by a BOUNDED stand-in (all histories of 2 symbolic queries, '
                '3 in the thorough tier, every ordering of the end points, three cache kinds), reported under bounded_stand_ins and not counted as proved']
@@ -51,6 +55,8 @@ def job_emptydict(E, rep, tier):
 def jobs(tier):
     P = 'C05'
     return [TJ.make(P, 'split_exact', False), TJ.make(P, 'split', False), TJ.make(P, 'loc_inner', False), TJ.make(P, 'loc', False),
+            TJ.make(P, 'split_exact', True), TJ.make(P, 'split', True), TJ.make(P, 'loc_inner', True), TJ.make(P, 'loc', True), TJ.make(P, 'call', True),
+            TJ.job_pure_lemmas(P),
             TJ.job_split_algebra(P, ()), Job('lru', job_lru), Job('emptydict', job_emptydict), WJ.job_wrappers(P)] + \
         HJ.symbolic_history_jobs(P, 2) + (HJ.symbolic_history_jobs(P, 3) if tier == 'thorough' else [])
 
